@@ -1,7 +1,7 @@
 """C14 - Gecko reassembles handshake packets exactly with bounded state."""
 
 MANIFEST = dict(
-    text="TLC exhausts Sys_Gecko (acceptChunk / dropEntry / evictOldest / gcExpired transcribed from gecko.go with scaled caps 2/3 and TTL; adversarial deliveries: any order, duplicates, six messages of three sources incl. a key reused with another chunk count, time passing; sender split/padding arithmetic on a boundary grid) against the Prop_C14 monitor and rejects five mutants. TLC-generated delivery/tick behaviours and seeded drivers (real sender frames permuted/duplicated/interleaved across messages and sources, 8-bit ID wraparound, TTL boundaries, per-source and 4500-source floods at the real caps 8/4096, ill-formed frames) run against the real WrapPacketConnGecko in a synctest bubble; every WriteTo/ReadFrom and the census of the reassembly table is validated by TLC against the same monitor.",
+    text="TLC exhausts Sys_Gecko (acceptChunk / dropEntry / evictOldest / gcExpired transcribed from gecko.go with scaled caps 2/3 and TTL; adversarial deliveries: any order, duplicates, six messages of three sources incl. a key reused with another chunk count, time passing; sender split/padding arithmetic on a boundary grid) against the Prop_C14 monitor and rejects model mutants (no counter decrement on completion, duplicate accepted, chunk-count mismatch ignored, per-source cap off by one, sweep disabled; two per quick run, all five in thorough). TLC-generated delivery/tick behaviours and seeded drivers (real sender frames permuted/duplicated/interleaved across messages and sources, 8-bit ID wraparound, TTL boundaries, per-source and 4500-source floods at the real caps 8/4096, ill-formed frames) run against the real WrapPacketConnGecko in a synctest bubble; every WriteTo/ReadFrom and the census of the reassembly table is validated by TLC against the same monitor.",
     note="Trusted: TLC, the harness' byte comparison of emitted packets (the monitor decides on identities, counts, times, caps), the harness' own frame parser and Salamander codec. White box: len(reassembly), perSource, table keys. 'Forgotten after its TTL' is judged at TTL + sweep period (12 s). Two pending messages with one (source, ID, chunk count) are outside the property. Virtual time (testing/synctest).",
     tech="TLA+ model checking (TLC) + TLC-generated scenario replay + TLC trace validation of real-code traces", ref="5/C14")
 
@@ -28,7 +28,8 @@ def run(ctx):
         ctx.validate("Prop_C14", sig=sig, distinct=distinct)
         return ctx.finish(rule="replay")
     # thorough: the small configuration with per-action coverage (vacuity report), the big one without (coverage halves TLC's speed)
-    ctx.tlc_mc("MC_Gecko", "MC_Gecko.cfg", coverage=T, workers=8)
+    ctx.tlc_mc("MC_Gecko", "MC_Gecko.cfg", coverage=T, workers=8)       # 3 deliveries, 3 ticks: expiry, per-source cap
+    ctx.tlc_mc("MC_Gecko", "MC_Gecko_cap.cfg", workers=8)               # 4 deliveries, no tick: global cap and eviction
     if T:
         ctx.tlc_mc("MC_Gecko", "MC_Gecko_big.cfg", timeout=1200)
     muts = ("NoDec", "Dup", "Total", "Cap", "NoGc")
